@@ -32,6 +32,8 @@ def slot_exprs(k):
         (lambda: A.Index(A.obj(("k", S("from-obj"))), S("k")), "from-obj"),
         (lambda: A.Call(A.Prop(I(1), "type", True), []), "int"),
         (lambda: A.IStr(["<", V(sv), ">"]), "<é-val>"),
+        (lambda: A.IStr(["[", A.Str("other"), "]"]), "[other]"),
+        (lambda: A.IStr(["<", A.Str("lit"), ">"]), "<lit>"),
         (lambda: A.call("sf%d" % k, S("q")), "qq"),
         (lambda: A.Index(A.lst(S("x"), S("y")), I(1)), "y"),
         (lambda: A.RangeIndex(S("é✓"), I(0), I(2)), "é"),
@@ -136,6 +138,10 @@ def bad_literals():
         out.append((base + '\\xg1"\n', (1, col0 + 2), "InvalidHexChar"))
         out.append((base + '\\x1g"\n', (1, col0 + 3), "InvalidHexChar"))
         out.append((base + '\\x4é"\n', (1, col0 + 3), "InvalidHexChar"))
+        out.append((base + '\\x+4"\n', (1, col0 + 2), "InvalidHexChar"))
+        out.append((base + '\\x-1"\n', (1, col0 + 2), "InvalidHexChar"))
+        out.append((base + '\\x 4"\n', (1, col0 + 2), "InvalidHexChar"))
+        out.append((base + '\\x4+"\n', (1, col0 + 3), "InvalidHexChar"))
         out.append((base + '$"\n', (1, col0), "UnescapedDollar"))
         out.append((base + '${x}"\n', (1, col0), "UnescapedDollar"))
         ibase = 'x := $"' + p
